@@ -93,11 +93,13 @@ def call_numpy(func, args: list, kwargs: dict) -> Any:
         return False
     if any(bad(a) for a in args) or any(bad(v) for v in kwargs.values()):
         return TOP
-    kw = dict(kwargs)
-    if 'dtype' in kw:
-        kw.pop('dtype')
-    f = getattr(np, name)
+    kw = {k: to_host_index(v) for k, v in kwargs.items()}
     conv = [to_host_index(a) for a in args]
+    if 'dtype' in kw:
+        # symbolic (object) entries cannot be cast; unknown dtype expressions are dropped as well
+        if isinstance(kw['dtype'], Ext) or any(_has_object(a) for a in conv if isinstance(a, (list, tuple, np.ndarray))):
+            kw.pop('dtype')
+    f = getattr(np, name)
     if name in ('array', 'asarray') and conv and isinstance(conv[0], (list, tuple)):
         # keep object dtype when entries are symbolic
         flat_obj = _has_object(conv[0])
